@@ -164,14 +164,19 @@ def audit(prop_id, extra_modules=()):
     module = "SvgVerif.Props.%s" % prop_id
     path = os.path.join(LEAN, "SvgVerif", "Props", prop_id + ".lean")
     res = {"ok": True, "obligations": 0, "discharged": 0, "theorems": [], "broken": [], "log": "",
-           "axioms": {}}
+           "axioms": {}, "helpers": []}
     if not os.path.exists(path):
         res["ok"] = False
         res["broken"].append("missing " + path)
         return res
-    names = theorem_names(path)
+    all_names = theorem_names(path)
+    # the property theorems are the ones named Cxx_…; helper lemmas kept beside them are audited for axioms as well
+    # but are not counted as obligations
+    names = [n for n in all_names if n.split(".")[-1].startswith(prop_id + "_")] or all_names
+    helpers = [n for n in all_names if n not in names]
     res["obligations"] = len(names)
     res["theorems"] = names
+    res["helpers"] = helpers
     ok, log = lake_build([module] + list(extra_modules))
     res["log"] = log[-6000:]
     if not ok:
@@ -193,7 +198,7 @@ def audit(prop_id, extra_modules=()):
     apath = os.path.join(LEAN, ".lake", "audit", "Audit_%s.lean" % prop_id)
     with open(apath, "w") as f:
         f.write("import %s\n" % module)
-        for n in names:
+        for n in names + helpers:
             f.write("#print axioms %s\n" % n)
     rc, out, err = _run(["lake", "env", "lean", apath], cwd=LEAN)
     if rc != 0:
@@ -207,7 +212,7 @@ def audit(prop_id, extra_modules=()):
         axs = set() if m.group(3) is None else {a.strip() for a in m.group(3).replace("\n", " ").split(",") if a.strip()}
         found[m.group(1)] = sorted(axs)
     res["axioms"] = found
-    for n in names:
+    for n in names + helpers:
         if n not in found:
             res["ok"] = False
             res["broken"].append("no axiom report for " + n)
@@ -216,7 +221,7 @@ def audit(prop_id, extra_modules=()):
         if extra:
             res["ok"] = False
             res["broken"].append("theorem %s depends on %s" % (n, sorted(extra)))
-        else:
+        elif n in names:
             res["discharged"] += 1
     return res
 
@@ -537,6 +542,7 @@ def run_property(prop, tier, seed, replay=None, max_seconds=None):
             "checker_cmd": "cd lean && lake build SvgVerif.Props.%s && lake env lean .lake/audit/Audit_%s.lean  # #print axioms" % (pid, pid),
             "trusted_base": tb,
             "theorems": aud["theorems"],
+            "helper_lemmas_audited": len(aud.get("helpers", [])),
             "axioms": aud.get("axioms", {}),
             "evaluations": stats["n"],
             "distinct_nontrivial": len(stats["nontrivial"]),
